@@ -196,14 +196,8 @@ class PointTier(textgrid_tier.TextgridTier):
 
         # Determine new min and max timestamps
         timeList = [float(point.time) for point in newEntries]
-        newMin = min(timeList)
-        newMax = max(timeList)
-
-        if newMin > self.minTimestamp:
-            newMin = self.minTimestamp
-
-        if newMax < self.maxTimestamp:
-            newMax = self.maxTimestamp
+        newMin = min(timeList + [self.minTimestamp])
+        newMax = max(timeList + [self.maxTimestamp])
 
         return PointTier(self.name, newEntries, newMin, newMax)
 
